@@ -32,7 +32,7 @@ sys.path.insert(0, ROOT)
 
 class Job:
     def __init__(self, pkg, templates, params=None, only=None, tier="quick", solver="z3a2:10000,cvc5:20000,z3new:30000", tags="purego",
-                 timeout_ms=60000, jobs=4, cross=None, label=None, skip_quick=None):
+                 timeout_ms=60000, jobs=4, cross=None, label=None, skip_quick=None, goarch=None):
         self.pkg = pkg                # import path relative to module, e.g. "ecc/bn254/fr"
         self.templates = templates    # list of template paths relative to /verif/harness
         self.params = params or {}
@@ -44,7 +44,8 @@ class Job:
         self.jobs = jobs
         self.cross = cross
         self.label = label or pkg
-        self.skip_quick = skip_quick  # regexp of harness names left to the thorough tier for this package
+        self.skip_quick = skip_quick
+        self.goarch = goarch  # regexp of harness names left to the thorough tier for this package
 
 
 def render(path, params):
@@ -141,6 +142,8 @@ def run_gosmt(prop, idx, job, files, only, extra_args=()):
         cmd += ["-only", o]
     if job.cross:
         cmd += ["-cross", job.cross]
+    if job.goarch:
+        cmd += ["-goarch", job.goarch]
     if os.environ.get("VERIF_SMTDIR"):
         cmd += ["-smtdir", files["wd"]]
     cmd += list(extra_args)
